@@ -241,6 +241,13 @@ def run_property(prop, tier, seed):
                 continue
             obligations += n_ob
             failed_labels = set()
+            if fl and info.get("skipped_hints"):
+                # the proof of this function ran without some of its hints (their anchors are gone): a failure is
+                # not evidence of a violation; the unit's bounded routines get to decide
+                undecided.append("%s: %s could not be proved after its proof hints lost their anchors (%s)" % (uname, fid, ", ".join(info["skipped_hints"])[:200]))
+                if (uname, r) not in undecided_units:
+                    undecided_units.append((uname, r))
+                continue
             for f in fl:
                 cl = info["clauses"].get(f["label"])
                 if cl is None and not f["label"].startswith("safety"):
